@@ -756,7 +756,19 @@ func (c *SpecCtx) evalCall(x *ECall) (Val, types.Type) {
 			if sig == nil {
 				c.fail("%s: no call site of %s in this function", x.Fun, key.V)
 			}
-			lc = lastCall{sig: sig, res: c.f.resultVal(sig, "nocall")}
+			arb := c.f.resultVal(sig, "nocall")
+			// ... unless this execution did pass through the call (short-circuit conditions: the
+			// call sits on some, not all, ways here): then it is the call's value
+			if ok && lc.blk != nil && at != nil && cfgReaches(lc.blk, at) && lc.blk != at {
+				if passed, okr := c.f.outReach[lc.blk.Index]; okr {
+					if rt, isT := lc.res.(Term); isT {
+						if at2, isT2 := arb.(Term); isT2 && at2.Sort == rt.Sort {
+							arb = tIte(passed, rt, at2)
+						}
+					}
+				}
+			}
+			lc = lastCall{sig: sig, res: arb}
 			if x.Fun == "laststr" {
 				return e.freshConst("nocall.str", SStr), types.Typ[types.String]
 			}
